@@ -23,12 +23,27 @@ RULE = ("cases = ordered pairs of valid DFAs over one alphabet (and single DFAs 
         "language-equal pairs (renamed / minimised / completed / padded with unreachable and dead states), pairs "
         "differing on exactly one deep state's finality, strict sub-languages (intersection / union with a third "
         "DFA), partial×complete mixes; non-trivial = both have ≥2 reachable states and both languages are non-empty; "
-        "distinct = distinct encoded pairs")
-ASSUMPTIONS = ["operands are valid DFAs over the same alphabet (different alphabets are outside the property)"]
+        "distinct = distinct encoded pairs; deep_pair family: of_length(k) vs of_length(k+1), {w} vs {w'} with |w| = 12..20 "
+        "differing in the last symbol, unary cycles (languages that differ only on one long word); empty-alphabet "
+        "DFAs; pairs sharing one transition table and final set but started in different states; derived-after-query "
+        "(query A, then B = A.complement(minify=False) / to_complete / copy / …, then query and compare B); "
+        "mutable-automata option with plain set/dict containers, queries first, then all comparisons judged on the "
+        "definition as built; every cached query (isempty / isfinite / maximum_word_length) is called a second time on the same object "
+        "and once more after another operation; probe family: the same queries called on a temporary (an object no "
+        "variable refers to) — open finding C06:cached-query-on-temporary")
+ASSUMPTIONS = ["operands are valid DFAs over the same alphabet (different alphabets are outside the property)",
+               "input symbols are single characters (a multi-character symbol validates, but Python strings are read "
+               "character by character, so the graph-based isempty/isfinite and the string language then talk about "
+               "different things — documented domain restriction, reviewer item X3)",
+               "object lifetime is outside the Lean model: the model's isempty/isfinite are total functions of the "
+               "definition; the RuntimeError of a cached query on a garbage-collected temporary (third-party "
+               "cached_method keeps only a weak reference) is exercised by the probe family and reported under the open "
+               "finding C06:cached-query-on-temporary; no Lean witness is possible for it"]
 EXPLANATION = ("Theorems C06_* (Props/C06.lean) are about the model; this run ties the model to the code and evaluates "
                "every answer on the real code against an independent complete product search.")
 
 NAMES = ["==", "!=", "<=", "<", ">=", ">", "issubset", "issuperset", "isdisjoint"]
+FINDING_TEMP = "C06:cached-query-on-temporary"
 
 
 def truth(A: DFA, B: DFA):
@@ -89,13 +104,21 @@ def is_finite(d: DFA) -> bool:
 
 
 @guarded
-def do_cmp(ctx: Ctx, A: DFA, B: DFA, origin: str):
+def do_cmp(ctx: Ctx, A: DFA, B: DFA, origin: str, refA=None, refB=None, history=None):
+    """refA / refB: the operands' definitions AS BUILT (frozen reference objects) when A / B are live objects
+    that earlier calls may have disturbed (mutable-automata option, shared caches): the real comparisons are
+    asked of A and B, the oracle and the model see the references."""
     drv = ctx.driver("drv_dfa_ops")
-    encA, stA, sy = enc_dfa(A)
-    encB, stB, _ = enc_dfa(B, sy=sy)
-    replay = dict(op="cmp", A=repr(A), B=repr(B))
     impl = [call(f) for f in (lambda: A == B, lambda: A != B, lambda: A <= B, lambda: A < B, lambda: A >= B,
                               lambda: A > B, lambda: A.issubset(B), lambda: A.issuperset(B), lambda: A.isdisjoint(B))]
+    # NB: never `refA or A` — bool(DFA) is len(DFA), which raises for an infinite language
+    A = A if refA is None else refA
+    B = B if refB is None else refB
+    replay = dict(op="cmp", A=repr(A), B=repr(B))
+    if history:
+        replay["history"] = history
+    encA, stA, sy = enc_dfa(A)
+    encB, stB, _ = enc_dfa(B, sy=sy)
     want = truth(A, B)
     ctx.stat(origin)
     ok = True
@@ -103,7 +126,8 @@ def do_cmp(ctx: Ctx, A: DFA, B: DFA, origin: str):
         if got != ("ok", w):
             ok = False
             wit = witness(A, B, name)
-            ctx.prop_fail(f"A {name} B answered {got[1] if got[0]=='ok' else 'raised '+got[1]} but the languages say {w}"
+            ctx.prop_fail((f"after [{history}]: " if history else "")
+                          + f"A {name} B answered {got[1] if got[0]=='ok' else 'raised '+got[1]} but the languages say {w}"
                           + (f" (witness word {wit!r}: A accepts {A.accepts_input(wit)}, B accepts {B.accepts_input(wit)})" if wit is not None else ""),
                           dict(replay, comparison=name, witness=wit))
     nt = reachable_count(A) >= 2 and reachable_count(B) >= 2 and not is_empty(A) and not is_empty(B)
@@ -120,35 +144,203 @@ def do_cmp(ctx: Ctx, A: DFA, B: DFA, origin: str):
         mod = line
     if mod != impl and ok:
         ctx.corr_diff("DFA_CMP", replay, impl, mod)
+    # `==` through the pick-parametric Hopcroft–Karp loop (networkx policy with both tie-breaks, the two
+    # constant policies, the fixed-direction eqv): all five must be the code's answer (C06_eq_iff_pick)
+    pk = drv.ask(toks("DFA_EQ_PICK", encA, encB)).split()
+    want_pk = [("1" if impl[0][1] else "0") if impl[0][0] == "ok" else "?"] * 5
+    if ok and pk != want_pk:
+        ctx.corr_diff("DFA_EQ_PICK", replay, want_pk, pk)
 
 
 @guarded
-def do_emptyfin(ctx: Ctx, A: DFA, origin: str):
+def do_emptyfin(ctx: Ctx, A: DFA, origin: str, model_max_states: int = 7, ref=None, history=None):
     drv = ctx.driver("drv_dfa_ops")
-    encA, stA, sy = enc_dfa(A)
-    replay = dict(op="emptyfin", A=repr(A))
+    O = A if ref is None else ref  # the definition as built: what the oracle and the model see
+    encA, stA, sy = enc_dfa(O)
+    replay = dict(op="emptyfin", A=repr(O))
+    if history:
+        replay["history"] = history
     e, f = call(lambda: A.isempty()), call(lambda: A.isfinite())
-    we, wf = is_empty(A), is_finite(A)
+    we, wf = is_empty(O), is_finite(O)
     ctx.stat(origin)
     ctx.stat("empty" if we else ("finite" if wf else "infinite"))
     ok = True
     if e != ("ok", we):
         ok = False
-        ctx.prop_fail(f"isempty answered {e} but the language is {'empty' if we else 'non-empty'}", replay)
+        ctx.prop_fail((f"after [{history}]: " if history else "")
+                      + f"isempty answered {e} but the language is {'empty' if we else 'non-empty'}", replay)
     if f != ("ok", wf):
         ok = False
-        ctx.prop_fail(f"isfinite answered {f} but the language is {'finite' if wf else 'infinite'}", replay)
-    ctx.case(("emptyfin", encA) if reachable_count(A) >= 2 and not we else None)
-    line = drv.ask(toks("DFA_EMPTYFIN", encA)).split()
-    mod = (bool(int(line[0])), bool(int(line[1])))
-    if ok and mod != (we, wf):
-        ctx.corr_diff("DFA_EMPTYFIN", replay, (we, wf), mod)
-    # maximum_word_length as a by-product (C13 owns it): compare when the model answers
+        ctx.prop_fail((f"after [{history}]: " if history else "")
+                      + f"isfinite answered {f} but the language is {'finite' if wf else 'infinite'}", replay)
+    ctx.case(("emptyfin", encA) if reachable_count(O) >= 2 and not we else None)
     mwl = call(lambda: A.maximum_word_length())
-    m_mwl = (line[2], line[3] if len(line) > 3 else "")
-    want = ("err", "EmptyLanguageException") if mwl[0] == "err" else ("ok", "N" if mwl[1] is None else str(mwl[1]))
-    if ok and m_mwl != want:
-        ctx.corr_diff("DFA_EMPTYFIN.max_word_length", replay, want, m_mwl)
+    if len(O.states) <= model_max_states:
+        line = drv.ask(toks("DFA_EMPTYFIN", encA)).split()
+        mod = (bool(int(line[0])), bool(int(line[1])))
+        if ok and mod != (we, wf):
+            ctx.corr_diff("DFA_EMPTYFIN", replay, (we, wf), mod)
+        # maximum_word_length as a by-product (C13 owns it): compare when the model answers
+        m_mwl = (line[2], line[3] if len(line) > 3 else "")
+        want = ("err", "EmptyLanguageException") if mwl[0] == "err" else ("ok", "N" if mwl[1] is None else str(mwl[1]))
+        if ok and m_mwl != want:
+            ctx.corr_diff("DFA_EMPTYFIN.max_word_length", replay, want, m_mwl)
+    else:
+        # the model's `longestPath` is a specification-style contract (walkLevel is re-computed per level):
+        # exponential to *execute* on long chains / cycles; deep DFAs are checked against the oracle only
+        ctx.stat("emptyfin_oracle_only_large")
+    # the three queries are @cached_method: a second call on the same object, and a call after other
+    # operations on it (which must not disturb the cache), must give the same — exact — answers
+    e2, f2, mwl2 = call(lambda: A.isempty()), call(lambda: A.isfinite()), call(lambda: A.maximum_word_length())
+    call(lambda: A.minify())
+    call(lambda: A == A)
+    call(lambda: A.accepts_input(""))
+    e3, f3, mwl3 = call(lambda: A.isempty()), call(lambda: A.isfinite()), call(lambda: A.maximum_word_length())
+    ctx.stat("cached_query_repeated")
+    if (e2, f2, mwl2) != (e, f, mwl) or (e3, f3, mwl3) != (e, f, mwl):
+        ctx.prop_fail(f"repeated isempty/isfinite/maximum_word_length on one object changed their answers: first "
+                      f"{(e, f, mwl)}, second {(e2, f2, mwl2)}, after minify/==/accepts_input {(e3, f3, mwl3)} "
+                      f"(language is {'empty' if we else 'non-empty'}, {'finite' if wf else 'infinite'})",
+                      dict(replay, repeated=True))
+
+
+# ------------------------------------------------------------------ probe: queries on temporaries
+def probe_temporaries(ctx: Ctx):
+    """isempty()/isfinite() asked of an object that no variable refers to.  In-domain: the DFA is a
+    valid one and the property says what the answer must be; the expected value is computed by the
+    independent oracles on a BOUND copy of the same value."""
+    rng = ctx.rng
+
+    def one(text, thunk, bound, query, replay):
+        want = is_empty(bound) if query == "isempty" else is_finite(bound)
+        got = call(thunk)
+        ctx.case(None)
+        ctx.stat("probe_temporary")
+        if got == ("ok", want):
+            ctx.stat("probe_temporary_answered")
+            return
+        if got == ("err", "RuntimeError"):
+            # confirm that it is the lifetime, not the value: the same query on the bound copy is right
+            again = call((lambda: bound.isempty()) if query == "isempty" else (lambda: bound.isfinite()))
+            if again == ("ok", want):
+                ctx.stat("probe_temporary_runtimeerror")
+                ctx.prop_fail(f"{text} raised RuntimeError (cached query on a temporary whose only reference is the "
+                              f"expression: cached_method keeps a weak reference); the language is "
+                              f"{'empty' if query == 'isempty' and want else ('non-empty' if query == 'isempty' else ('finite' if want else 'infinite'))}, "
+                              f"the same call on a named copy answers {want}",
+                              dict(replay, op="temporary", text=text, query=query), FINDING_TEMP)
+                return
+        ctx.prop_fail(f"{text} answered {got} but the oracle says {want}",
+                      dict(replay, op="temporary", text=text, query=query), None)
+
+    # fixed corpus (the replays of the finding)
+    one("DFA.universal_language({'a'}).isempty()", lambda: DFA.universal_language({"a"}).isempty(),
+        DFA.universal_language({"a"}), "isempty", dict(expr="DFA.universal_language({'a'})"))
+    one("DFA.empty_language({'a'}).isfinite()", lambda: DFA.empty_language({"a"}).isfinite(),
+        DFA.empty_language({"a"}), "isfinite", dict(expr="DFA.empty_language({'a'})"))
+    a, b = DFA.universal_language({"a"}), DFA.empty_language({"a"})
+    one("(a|b).isfinite() with a = DFA.universal_language({'a'}), b = DFA.empty_language({'a'})",
+        lambda: (a | b).isfinite(), a | b, "isfinite",
+        dict(expr="A | B", A=repr(a), B=repr(b)))
+    one("(a|b).isempty() with a = DFA.universal_language({'a'}), b = DFA.empty_language({'a'})",
+        lambda: (a | b).isempty(), a | b, "isempty", dict(expr="A | B", A=repr(a), B=repr(b)))
+    one("(~a).isempty() with a = DFA.universal_language({'a'})", lambda: (~a).isempty(), ~a, "isempty",
+        dict(expr="~A", A=repr(a)))
+    # random operands, every operator / constructor shape
+    shapes = [("A | B", lambda A, B: A | B), ("A & B", lambda A, B: A & B), ("A - B", lambda A, B: A - B),
+              ("A ^ B", lambda A, B: A ^ B), ("~A", lambda A, B: ~A), ("A.minify()", lambda A, B: A.minify()),
+              ("A.to_complete()", lambda A, B: A.to_complete()), ("A.copy()", lambda A, B: A.copy()),
+              ("A.union(B, minify=False)", lambda A, B: A.union(B, minify=False))]
+    for _ in range(ctx.budget(40, 400)):
+        al = rng.choice(gen.ALPHABETS)
+        A, B = gen.rand_dfa(rng, 5, al), gen.rand_dfa(rng, 5, al)
+        text, f = rng.choice(shapes)
+        query = rng.choice(["isempty", "isfinite"])
+        bound = f(A, B)
+        if query == "isempty":
+            one(f"({text}).isempty()", lambda: f(A, B).isempty(), bound, query, dict(expr=text, A=repr(A), B=repr(B)))
+        else:
+            one(f"({text}).isfinite()", lambda: f(A, B).isfinite(), bound, query, dict(expr=text, A=repr(A), B=repr(B)))
+
+
+# ------------------------------------------------------------------ deep pairs
+def deep_pairs(rng):
+    """Pairs of DFAs whose languages differ only on long words (deep refinement / long union–find chains)."""
+    out = []
+    al = rng.choice([("a", "b"), ("a",), ("a", "b", "c"), ("0", "1")])
+    k = rng.randint(8, 20)
+    kind = rng.randrange(6)
+    if kind == 0:
+        A = DFA.of_length(set(al), min_length=k, max_length=k)
+        B = DFA.of_length(set(al), min_length=k + 1, max_length=k + 1)
+        out.append(("deep_of_length_k_vs_k+1", A, B))
+        out.append(("deep_of_length_k_vs_atmost_k", A, DFA.of_length(set(al), min_length=0, max_length=k)))
+    elif kind == 1:
+        n = rng.randint(12, 20)
+        w = "".join(rng.choice(al) for _ in range(n))
+        if len(al) >= 2:
+            w2 = w[:-1] + rng.choice([c for c in al if c != w[-1]])
+        else:
+            w2 = w + al[0]
+        A, B = DFA.from_finite_language(set(al), {w}), DFA.from_finite_language(set(al), {w2})
+        out.append(("deep_single_word_last_symbol", A, B))
+        out.append(("deep_single_word_vs_both", A, DFA.from_finite_language(set(al), {w, w2})))
+        out.append(("deep_single_word_equal", A, DFA.from_finite_language(set(al), {w}).to_complete()))
+    elif kind == 2:
+        # unary cycles: a^n with n ≡ r (mod m) — differ only far out when m is large
+        m1, m2 = rng.randint(1, 12), rng.randint(1, 12)
+
+        def cyc(m, finals, partial=False):
+            return DFA(states=set(range(m)), input_symbols={"a"},
+                       transitions={i: {"a": (i + 1) % m} for i in range(m)}, initial_state=0,
+                       final_states=set(finals), allow_partial=partial)
+        r = rng.randrange(m1)
+        A = cyc(m1, {r})
+        B = cyc(m1 * m2, {i for i in range(m1 * m2) if i % m1 == r})
+        out.append(("deep_unary_cycle_equal", A, B))
+        C = cyc(m1 * m2, {i for i in range(m1 * m2) if i % m1 == r} ^ {m1 * m2 - 1})
+        out.append(("deep_unary_cycle_one_flipped", A, C))
+        out.append(("unary_self_loop", cyc(1, {0}), cyc(1, set())))
+        out.append(("unary_self_loop", cyc(1, {0}), cyc(m2, set(range(m2)))))
+        out.append(("unary_self_loop", cyc(1, {0}, True), cyc(m2, set(range(m2)) - {m2 - 1})))
+    elif kind == 3:
+        # a chain with a self-loop at the end vs the same chain one longer
+        def chain(n, loop):
+            t = {i: {"a": i + 1} for i in range(n)}
+            t[n] = {"a": n} if loop else {}
+            return DFA(states=set(range(n + 1)), input_symbols={"a"}, transitions=t, initial_state=0,
+                       final_states={n}, allow_partial=True)
+        out.append(("deep_unary_chain", chain(k, True), chain(k + 1, True)))
+        out.append(("deep_unary_chain", chain(k, False), chain(k, True)))
+        out.append(("deep_unary_chain_equal", chain(k, True), chain(k, True).minify()))
+    elif kind == 4:
+        n = rng.randint(2, 4)
+        sy = set(al)
+        A = DFA.nth_from_end(sy, al[0], n)
+        B = DFA.nth_from_end(sy, al[0], n + 1)
+        out.append(("deep_nth_from_end", A, B))
+        out.append(("deep_nth_from_end_equal", A, A.minify(retain_names=True)))
+    else:
+        m = rng.randint(2, 9)
+        sy = set(al)
+        A = DFA.count_mod(sy, m, remainders={0})
+        B = DFA.count_mod(sy, 2 * m, remainders={0, m})
+        out.append(("deep_count_mod_equal", A, B))
+        out.append(("deep_count_mod_sub", DFA.count_mod(sy, 2 * m, remainders={0}), A))
+    return out
+
+
+def empty_alphabet_dfas():
+    out = []
+    for fin in (set(), {0}):
+        for partial in (False, True):
+            out.append(DFA(states={0}, input_symbols=set(), transitions={0: {}}, initial_state=0,
+                           final_states=fin, allow_partial=partial))
+    out.append(DFA(states={0, 1}, input_symbols=set(), transitions={0: {}, 1: {}}, initial_state=1,
+                   final_states={0}, allow_partial=True))
+    out.append(DFA(states={0, 1}, input_symbols=set(), transitions={0: {}, 1: {}}, initial_state=1,
+                   final_states={0, 1}, allow_partial=False))
+    return out
 
 
 def variants(rng, A: DFA):
@@ -188,8 +380,139 @@ def variants(rng, A: DFA):
     return out
 
 
+# ------------------------------------------------------------------ round-3 families
+def same_table_other_init(rng, A: DFA):
+    """B = A's states, transition table and final set, started in another state: the right languages of two
+    states of one automaton (equal or not).  A comparison that looks at the tables only is wrong here."""
+    others = [q for q in A.states if q != A.initial_state]
+    if not others:
+        return None
+    q = rng.choice(sorted(others, key=repr))
+    return DFA(states=A.states, input_symbols=A.input_symbols, transitions=A.transitions, initial_state=q,
+               final_states=A.final_states, allow_partial=A.allow_partial)
+
+
+QUERIES = [("isempty()", lambda d: d.isempty()), ("isfinite()", lambda d: d.isfinite()),
+           ("maximum_word_length()", lambda d: d.maximum_word_length()),
+           ("minimum_word_length()", lambda d: d.minimum_word_length()), ("len()", lambda d: len(d)),
+           ("cardinality()", lambda d: d.cardinality()), ("to_partial()", lambda d: d.to_partial()),
+           ("to_partial(minify=False)", lambda d: d.to_partial(minify=False)), ("minify()", lambda d: d.minify()),
+           ("accepts_input(\"\")", lambda d: d.accepts_input("")), ("d == d", lambda d: d == d),
+           ("d.copy()", lambda d: d.copy())]
+DERIVE = [("complement(minify=False)", lambda d: d.complement(minify=False)), ("complement()", lambda d: d.complement()),
+          ("complement(retain_names=True, minify=False)", lambda d: d.complement(retain_names=True, minify=False)),
+          ("to_complete()", lambda d: d.to_complete()), ("to_partial(minify=False)", lambda d: d.to_partial(minify=False)),
+          ("copy()", lambda d: d.copy()), ("minify(retain_names=True)", lambda d: d.minify(retain_names=True)),
+          ("union(d, minify=False)", lambda d: d.union(d, minify=False)), ("~d", lambda d: ~d)]
+
+
+def derived_after_query(ctx: Ctx, n: int):
+    """Query A first (the cached queries fill per-object memo tables), THEN derive B from A, then ask B the
+    same questions and compare B with A and with a third DFA — every answer judged by the oracles on B's own
+    definition.  A derived object that inherits its parent's memo tables answers for the wrong language."""
+    rng = ctx.rng
+    for _ in range(n):
+        al = rng.choice(gen.ALPHABETS)
+        A = gen.rand_dfa(rng, 5, al, partial=False if rng.random() < 0.6 else None)
+        hist = []
+        for name, q in rng.sample(QUERIES, rng.randint(1, 3)):
+            call(lambda: q(A))
+            hist.append("A." + name if not name.startswith(("len", "d ")) else name)
+        dname, f = rng.choice(DERIVE)
+        res = call(lambda: f(A))
+        if res[0] == "err":
+            ctx.prop_fail(f"after [{'; '.join(hist)}]: A.{dname} raised {res[1]}", dict(op="derived", A=repr(A), history=hist))
+            continue
+        B = res[1]
+        h = "; ".join(hist) + f"; B = A.{dname}"
+        ctx.stat("derived_" + dname.split("(")[0])
+        do_emptyfin(ctx, B, "derived_after_query", history=h)
+        do_emptyfin(ctx, A, "derived_after_query", history=h)
+        do_cmp(ctx, B, A, "derived_after_query", history=h)
+        C = gen.rand_dfa(rng, 4, al)
+        if rng.random() < 0.5:
+            do_cmp(ctx, C, B, "derived_after_query", history=h)
+        else:
+            do_cmp(ctx, B, C, "derived_after_query", history=h)
+
+
+def mutable_option_family(ctx: Ctx, n: int):
+    """allow_mutable_automata=True: operands built from PLAIN dict/set containers (which the library then
+    stores as they are).  Queries / conversions are called first; afterwards all nine comparisons and
+    isempty/isfinite are judged against the definition AS BUILT (a frozen reference object made from the same
+    data before the option was switched on).  A library function that mutates a container it was handed
+    (e.g. uses final_states as its own work set) makes the later answers wrong."""
+    import automata.base.config as global_config
+    rng = ctx.rng
+    for _ in range(n):
+        al = rng.choice(gen.ALPHABETS)
+        refs = [gen.rand_dfa(rng, 5, al), gen.rand_dfa(rng, 5, al)]
+        global_config.allow_mutable_automata = True
+        try:
+            live = [DFA(states=set(r.states), input_symbols=set(r.input_symbols),
+                        transitions={k: dict(row) for k, row in r.transitions.items()},
+                        initial_state=r.initial_state, final_states=set(r.final_states),
+                        allow_partial=r.allow_partial) for r in refs]
+            hist = []
+            for i, d in enumerate(live):
+                for name, q in rng.sample(QUERIES, rng.randint(0, 3)):
+                    call(lambda: q(d))
+                    hist.append(f"{'AB'[i]}.{name}")
+            h = "allow_mutable_automata=True, plain set/dict containers; " + "; ".join(hist)
+            ctx.stat("mutable_option_family")
+            do_cmp(ctx, live[0], live[1], "mutable_option", refA=refs[0], refB=refs[1], history=h)
+            do_cmp(ctx, live[1], live[0], "mutable_option", refA=refs[1], refB=refs[0], history=h)
+            do_emptyfin(ctx, live[0], "mutable_option", ref=refs[0], history=h)
+            for r, d in zip(refs, live):
+                if (set(d.states), set(d.final_states), d.initial_state, {k: dict(v) for k, v in d.transitions.items()}) != \
+                        (set(r.states), set(r.final_states), r.initial_state, {k: dict(v) for k, v in r.transitions.items()}):
+                    ctx.stat("mutable_option_definition_changed")
+        finally:
+            global_config.allow_mutable_automata = False
+
+
+def none_row_corpus(ctx: Ctx):
+    """Triggers of the repaired defect behind /repo f47420f: a transition row keyed by None (rows keyed by
+    non-states pass validation in general).  The definition must be refused now; if a tree accepts it, the
+    comparisons / isempty / isfinite are evaluated on it like on any other valid DFA (the unrepaired code
+    raised ValueError 'None cannot be a node' in isfinite)."""
+    defs = [dict(states={0}, input_symbols={"a"}, transitions={0: {"a": 0}, None: {"a": 0}}, initial_state=0,
+                 final_states={0}),
+            dict(states={0, 1}, input_symbols={"a", "b"}, transitions={0: {"a": 1}, 1: {}, None: {}}, initial_state=0,
+                 final_states={1}, allow_partial=True)]
+    for kw in defs:
+        ctx.stat("corpus_none_row")
+        try:
+            d = DFA(**kw)
+        except Exception as e:  # noqa: BLE001
+            ctx.case(None)
+            if type(e).__name__ != "InvalidStateError":
+                ctx.prop_fail(f"a DFA definition with a transition row keyed by None raised {type(e).__name__} "
+                              f"instead of InvalidStateError", dict(op="none_row", definition=repr(kw)))
+            else:
+                ctx.stat("corpus_none_row_refused")
+            continue
+        do_emptyfin(ctx, d, "corpus_none_row_accepted")
+        do_cmp(ctx, d, d.copy(), "corpus_none_row_accepted")
+
+
 def run(ctx: Ctx):
     rng = ctx.rng
+    probe_temporaries(ctx)
+    none_row_corpus(ctx)
+    derived_after_query(ctx, ctx.budget(250, 6000))
+    mutable_option_family(ctx, ctx.budget(250, 6000))
+    ea = empty_alphabet_dfas()
+    for a in ea:
+        do_emptyfin(ctx, a, "empty_alphabet")
+        for b in ea:
+            do_cmp(ctx, a, b, "empty_alphabet")
+    for _ in range(ctx.budget(60, 1500)):
+        for tag, A, B in deep_pairs(rng):
+            if rng.random() < 0.5:
+                A, B = B, A
+            do_cmp(ctx, A, B, tag)
+            do_emptyfin(ctx, A, tag, model_max_states=4)
     pool = [d for n in (1, 2) for d in gen.all_dfas(n, ("a", "b"))]
     if ctx.thorough():
         n_pairs = len(pool) ** 2
@@ -211,6 +534,11 @@ def run(ctx: Ctx):
     for _ in range(ctx.budget(2500, 50000)):
         al = rng.choice(gen.ALPHABETS)
         A = gen.rand_dfa(rng, 6, al)
+        if rng.random() < 0.15:
+            B = same_table_other_init(rng, A)
+            if B is not None:
+                do_cmp(ctx, A, B, "same_table_other_init")
+                do_cmp(ctx, B, A, "same_table_other_init")
         if rng.random() < 0.5:
             B = gen.rand_dfa(rng, 6, al)
             do_cmp(ctx, A, B, "random_pair")
@@ -225,6 +553,8 @@ def run(ctx: Ctx):
 
 def search(ctx: Ctx):
     rng = ctx.rng
+    derived_after_query(ctx, ctx.budget(500, 3000))
+    mutable_option_family(ctx, ctx.budget(500, 3000))
     for _ in range(ctx.budget(15000, 80000)):
         if ctx.n_prop_fails:
             return
@@ -240,6 +570,34 @@ def replay(ctx: Ctx, path: str) -> int:
     data = json.load(open(path))
     rp = data.get("replay", data)
     env = {"DFA": DFA, "frozenset": frozenset}
+    if rp.get("history"):
+        # history-dependent case (calls made on the live objects before the comparison): the recorded
+        # definitions alone do not reproduce it — re-run the two history families
+        derived_after_query(ctx, 400)
+        mutable_option_family(ctx, 400)
+        if [f for f in ctx.prop_fails if f["key"] is None]:
+            print(f"VIOLATION property=C06 replay={path}")
+            print("  " + [f for f in ctx.prop_fails if f["key"] is None][0]["what"])
+            return 1
+        print("replay: property holds on the history families now")
+        return 0
+    if rp["op"] == "none_row":
+        none_row_corpus(ctx)
+        if ctx.prop_fails:
+            print(f"VIOLATION property=C06 replay={path}")
+            print("  " + ctx.prop_fails[0]["what"])
+            return 1
+        print("replay: property holds on this input now")
+        return 0
+    if rp["op"] == "temporary":
+        probe_temporaries(ctx)
+        hits = [f for f in ctx.prop_fails if f["replay"].get("text") == rp["text"]] or ctx.prop_fails
+        if hits:
+            print(f"VIOLATION property=C06 replay={path}")
+            print("  " + hits[0]["what"])
+            return 1
+        print("replay: property holds on this input now")
+        return 0
     if rp["op"] == "cmp":
         do_cmp(ctx, eval(rp["A"], env), eval(rp["B"], env), "replay")
     else:
